@@ -851,6 +851,7 @@ class Runner:
             "size0": bool(degenerate),
             "ndim3": max(ndims or [0]) >= 3,
             "axis_given": "axis" in step["kwargs"],
+            "unsigned_data": any(str(lit.get("dtype", "")).startswith("u") for lit in arrays),
         }
 
     def run(self) -> None:
